@@ -227,6 +227,44 @@ Example C17_nbns_name_example :
 Proof. vm_compute. reflexivity. Qed.
 Print Assumptions C17_nbns_name_example.
 
+(* the whole list parseNodeNameArray returns = the reference list of unique names (RFC 1002 4.2.18) *)
+Theorem C17_nbns_name_list : forall full, bytes_ok full ->
+  parseNodeNameArray (of_bytes full) =
+  match node_status_names full with Some l => Ok l | None => Err EFrameLen end.
+Proof. exact parseNodeNameArray_spec. Qed.
+Print Assumptions C17_nbns_name_list.
+
+(* RFC 1001 first-level encoding.  encodeNBNSName is the reference encoding of the space-padded name *)
+Theorem C17_nbns_encode : forall n, (length n <= 16)%nat -> encodeNBNSName n = nb_encode (nb_pad16 n).
+Proof. exact encodeNBNSName_ref. Qed.
+Print Assumptions C17_nbns_encode.
+
+(* decodeNBNSName reads every scope-less first-level name as the reference does (any spare capacity) *)
+Theorem C17_nbns_decode : forall enc spare raw, nb_decode enc = Some raw ->
+  decodeNBNSName (of_bytes_cap enc spare) = Ok (33%nat, present_spaces raw).
+Proof. exact decodeNBNSName_ref. Qed.
+Print Assumptions C17_nbns_decode.
+
+(* the reference decoding inverts the reference encoding, and so do the library's functions:
+   decode (encode n) = n (trailing spaces removed) for ALL 16-octet names *)
+Theorem C17_nbns_reference_inverse : forall n16, length n16 = 16%nat -> bytes_ok n16 ->
+  nb_decode (nb_encode n16) = Some n16.
+Proof. exact nb_decode_encode. Qed.
+Print Assumptions C17_nbns_reference_inverse.
+
+Theorem C17_nbns_decode_encode : forall n spare, length n = 16%nat -> bytes_ok n ->
+  decodeNBNSName (of_bytes_cap (encodeNBNSName n) spare) = Ok (33%nat, present_spaces n).
+Proof. exact decode_encode_NBNSName. Qed.
+Print Assumptions C17_nbns_decode_encode.
+
+Example C17_nbns_codec_example :
+  (* "NAS" + 0xE9 0x80 (octets >= 0x80) padded: round trip *)
+  let n := [78;65;83;233;128] ++ repeat 32 11 in
+  length n = 16%nat /\ bytes_okb n = true /\
+  decodeNBNSName (of_bytes (encodeNBNSName n)) = Ok (33%nat, [78;65;83;233;128]).
+Proof. vm_compute. repeat split; reflexivity. Qed.
+Print Assumptions C17_nbns_codec_example.
+
 (* ------------------------------------------------------------------ *)
 (* NameEntry.Merge: the learned attributes are Name, Model, OS, Manufacturer
    and Expire (Type is the source tag, overwritten unconditionally). *)
